@@ -10,8 +10,10 @@ static void* verif_memcpy(void* d, const void* s, size_t n)
     VERIF_ASSERT(__CPROVER_w_ok(d, n), "check: memcpy destination writable");
     if (n <= 16) { /* short copies (the 8-byte double<->int64 punning) are exact */
       for (size_t i = 0; i < 16; ++i) if (i < n) ((char*)d)[i] = ((const char*)s)[i];
-    } else
-      __CPROVER_havoc_slice(d, n);   /* contents abstracted: content facts are back end B's job */
+    } else {
+      __CPROVER_havoc_slice(d, n);   /* contents abstracted, except at the ghost index: memcpy copies every byte, */
+      if (verif_g < n) __CPROVER_assume(((char*)d)[verif_g] == ((const char*)s)[verif_g]);   /* in particular byte verif_g */
+    }
   }
   return d;
 }
